@@ -213,4 +213,9 @@ theorem ia64_mask_lt (i : Nat) : ia64BranchTable.getD i 0 < 8 := by
     rw [List.getElem?_eq_none (by simp [ia64BranchTable]; omega)]
     decide
 
+/-- a regenerated word grid `(pc, word, encoded, decoded)` agrees with a `*_code` model on 4-byte buffers -/
+def gridOK (code : Bool → BitVec 32 → List UInt8 → List UInt8 × Nat) (g : List (Nat × Nat × Nat × Nat)) : Bool :=
+  g.all fun (pc, w, e, d) =>
+    packLE (code true (BitVec.ofNat 32 pc) (unpackLE 4 w)).1 == e && packLE (code false (BitVec.ofNat 32 pc) (unpackLE 4 w)).1 == d
+
 end XzVerif.Bcj
